@@ -137,6 +137,10 @@ fn finalise(f: IntermediateAggregationResults, aggs: &Aggregations) -> Out {
 }
 
 /// names of the terms nodes that some segment may truncate (distinct keys > segment_size)
+fn has_composite(nodes: &[Node]) -> bool {
+    nodes.iter().any(|n| matches!(n.agg, Agg::Composite { .. }) || has_composite(&n.subs))
+}
+
 fn may_truncate(nodes: &[Node], docs: &[MDoc], parts: &[Vec<usize>], q: Q, out: &mut Vec<String>) {
     for n in nodes {
         if let Agg::Terms { field, size, seg, mdc, order, missing } = &n.agg {
@@ -623,6 +627,17 @@ pub fn check_request(ctx: &mut Ctx, rng: &mut Rng, corpus: &Corpus, nodes: &[Nod
                         ctx.report.count("model:composite-eviction-compared");
                         if mt != m {
                             ctx.report.violation("model", "C14:lean-composite-eviction-visible", format!("with eviction {} vs without {}", &mt[..mt.len().min(300)], &m[..m.len().min(300)]), case_json(&c, parts, "final"));
+                        }
+                    }
+                    // a composite anywhere in the request: eviction at every composite node of every segment is invisible
+                    if has_composite(nodes) && !mparts.is_empty() {
+                        let rq = nodes_to_lean(nodes, true, &ranks);
+                        let ev = ctx.model.ask(&format!("C14 mergedevict {} {}", rq, parts_to_lean(&corpus.docs, &mparts, &ranks)));
+                        let all: Vec<Vec<usize>> = vec![mparts.iter().flatten().cloned().collect()];
+                        let wh = ctx.model.ask(&format!("C14 whole {} {}", rq, parts_to_lean(&corpus.docs, &all, &ranks)));
+                        ctx.report.count("model:composite-eviction-anywhere-compared");
+                        if ev != wh {
+                            ctx.report.violation("model", "C14:lean-nested-composite-eviction-visible", format!("evicted {} vs whole {}", &ev[..ev.len().min(300)], &wh[..wh.len().min(300)]), case_json(&c, parts, "final"));
                         }
                     }
                     // a single top-level terms ordered by _key (ascending or descending): exact under truncation (Lean decides applicability)
